@@ -84,7 +84,7 @@ def _len_aliases(ln):
 def _is_conv_of_length(e):
     if e[0] == "cast":
         return True
-    if e[0] == "call" and e[1].endswith("::unwrap") and e[2] and e[2][0][0] == "call" and "try_into" in e[2][0][1]:
+    if e[0] == "call" and e[1].endswith("::unwrap") and e[2] and e[2][0][0] == "call" and ("try_into" in e[2][0][1] or e[2][0][1].split("::")[-1] == "try_from"):
         return True
     return False
 
@@ -265,7 +265,7 @@ class SiteScan:
         if kind == "unwrap":
             x = args[0]
             # D-f: usize<->isize conversion of an untainted length / position (assumption: lengths <= isize::MAX/4)
-            if x[0] == "call" and x[1] in ("<T as TryInto<U>>::try_into",) and not tainted(x):
+            if x[0] == "call" and (x[1] in ("<T as TryInto<U>>::try_into",) or x[1].split("::")[-1] == "try_from") and not tainted(x):
                 return True, ""
             for ga, go in g.items():
                 if ga == ("variant", x) and go in (("variant", "Some"), ("variant", "Ok")):
@@ -302,6 +302,8 @@ class SiteScan:
             if m == "remove":
                 if any(g.get(("lt", i, l2)) is True for l2 in _len_aliases(("len", v))):
                     return True, ""
+                if v[0] == "vec" and i[0] == "const" and isinstance(i[2], int) and i[2] < len(v[1]):
+                    return True, ""  # removal from a vector literal that has that many elements
                 if i[0] == "const":
                     for ga, go in g.items():
                         if go is True and ga[0] == "eq" and ("len", v) in ga[1:] and any(x[0] == "const" and x[2] > i[2] for x in ga[1:]):
@@ -313,8 +315,44 @@ class SiteScan:
                 si, sv = strip_ver(show(i)), strip_ver(show(v))
                 if re.match(r"^Option::unwrap_or\((<Iter<T> as Iterator>|Iterator)::position\(%s, closure .*\), len\(%s\)\)$" % (re.escape(sv), re.escape(sv)), si):
                     return True, ""
+                # at the vector's own length, taken now or earlier: lengths only grow in a body that never shrinks a vector
+                if si == "len(%s)" % sv and self._grow_only(fn):
+                    return True, ""
+                # at the index k of an element that a scan of the same vector has reached: k + 1 elements were
+                # delivered by its iterator on this path
+                if i[0] == "const" and isinstance(i[2], int) and self._grow_only(fn):
+                    reached = 0
+                    for ga, go in g.items():
+                        if go == ("variant", "Some") and ga[0] == "variant" and strip_ver(show(ga[1])) in ("<Iter<T> as Iterator>::next(%s)" % sv, "next(%s)" % sv, "<Iter<T> as Iterator>::next(iter(%s))" % sv):
+                            reached += 1
+                    if reached >= i[2] + 1:
+                        return True, ""
             return False, "%s(%s, %s)" % (m, show(v)[:40], show(i)[:40])
         return False, kind
+
+    def _grow_only(self, fn=None):
+        """no call in this body can shorten a vector of this element type (remove, pop, truncate, clear, drain,
+        retain, split_off, mem::take / replace / swap of anything)"""
+        def vec_ty(f):
+            m = re.match(r"^(std::(?:vec::Vec|collections::VecDeque)::<.*>)::\w+$", strip_lt((f or {}).get("inst") or ""))
+            return m.group(1) if m else None
+        ty = vec_ty(fn)
+        cache = self.__dict__.setdefault("_grow", {})
+        if ty not in cache:
+            good = True
+            for bb, t in self.body.calls():
+                d, r, f2 = callee(t)
+                if not r:
+                    continue
+                if re.match(r"^std::(?:vec::Vec|collections::VecDeque)::<.*>::(remove|swap_remove|pop|pop_front|pop_back|truncate|clear|drain|retain|retain_mut|split_off|dedup\w*|set_len|shrink\w*)$", r) and (ty is None or vec_ty(f2) in (None, ty)):
+                    good = False
+                if re.search(r"mem::(take|replace|swap)(::<.*>)?$", r):
+                    inst = strip_lt((f2 or {}).get("inst") or "")
+                    elem = ty[ty.index("<") + 1:-1].split(",")[0] if ty else None
+                    if not inst or elem is None or ("Vec<%s" % elem) in inst or ("Vec::<%s" % elem) in inst or "Vec" not in inst and "String" not in inst and "Option" not in inst:
+                        good = False
+            cache[ty] = good
+        return cache[ty]
 
     def _walk(self):
         from ..sym import Evaluator
@@ -347,6 +385,10 @@ def undischarged_in(ctx, body):
 
 # Audited sites that may legitimately appear in another shape after a behaviour-preserving edit.
 ALT_SHAPES = [
+    {"pattern": r"^analyze_string::AnalyzeIter::compute_nesting_table\|BoundsCheck\(len\(a1\), add\(1, (<Enumerate<I> as Iterator>::)?next\((Iterator::enumerate\([^()]*\(?a1\)*|v)\) as Some\.0\.0\)\)$",
+     "reason": "the look-ahead pattern[i + 1] after a '(' with i the index delivered by an enumerating iterator over the pattern instead of a cursor variable: runs only on the text of a pattern the parser accepted (gated on !is_literal, LITERAL-ANALYZE), in which every '(' has a successor"},
+    {"pattern": r"^re_matcher::ReMatcher::get_paren\|index:index\(a1\.search, Range::Range\{start: [^{}]*a1\.state\.capture_state\.startn[^{}]* as Some\.0, end",
+     "reason": "get_paren reading the two ends from the arrays directly instead of through get_paren_start/get_paren_end: group spans are start <= end <= len (written by CaptureGroupIterator::next from positions the child iterator yielded); that it reads startn[n] and endn[n] under n < paren_count is REPL-ACCESSOR"},
     {"pattern": r"^re_compiler::ReCompiler::escape\|index:index\(a1\.pattern, Range::Range\{start: a1\.idx, end: add\(a1\.idx, try\(Option::ok_or(_else)?\(Iterator::position\(",
      "reason": "close = from + position(..) of an element found inside pattern[from..], hence from <= close < len (the error for a missing '}' may be built eagerly or lazily)"},
     {"pattern": r"^<op_choice::Choice as operation::OperationControl>::get_(minimum_)?match_length\|unwrap:unwrap\(v\)$",
